@@ -87,16 +87,16 @@ PROPS = {
         "assumptions": ["total file size below 2^32 (the format's limit; the encoder's u32 size arithmetic would overflow beyond it)", "an empty metadata vector means 'not supplied' (the encoder's documented is_empty test)"],
     },
     "C08": {
-        "technique": "Lean 4 field-level theorems for every field value + memory-limit rule + first-binding lemmas; generated-layout correspondence against the model, the layout-defined values and libwebp's demuxer",
-        "level_text": "Theorems for EVERY field value: VP8L 14-bit sizes 1..16384 (maximum included), alpha bit and version; VP8 14-bit sizes under any scale bits; 24-bit canvas sizes up to 2^24; all 256 VP8X flag bytes; 24-bit durations under any flags byte; even rounding of chunk sizes; the memory-limit rule of read_chunk (over-limit => MemoryLimitExceeded before any read or allocation; otherwise the exact bytes of the registered range; absent => None); entry().or_insert keeps the first occurrence; output_buffer_size formula. The whole-file statement over arbitrary chunk orders (C08.scan_full) is stated and, in this pass, established by execution: thousands of generated layouts per run (all four container kinds, all flag combinations, extreme sizes, unknown chunks anywhere, odd padding, metadata at any position, limits around the chunk sizes) are opened with the real decoder and every accessor compared with the layout-defined value, with the Lean model Container.openFile and with libwebp's WebPDemux.",
-        "level_note": "Trusted: Lean kernel + standard axioms; Cursor/BufRead/Seek contracts as modelled (read_exact succeeds iff enough bytes; negative relative seek is an error); the scan-loop parse-after-print theorem is not yet proved (partial).",
-        "design_ref": "DESIGN.md section 4, C08",
+        "technique": "Lean 4 parse-after-print proofs (scan loop by induction over arbitrary chunk sequences; whole-file theorem for extended stills; metadata accessors exact) + field-level theorems for every field value + generated-layout correspondence against the model, the layout-defined values and libwebp's demuxer",
+        "level_text": "Theorems: (scan_full) the VP8X scan loop over ANY sequence of well-formed non-ANMF chunks - known ones in any order and multiplicity, unknown ones anywhere, odd sizes padded - ends without error and registers for every known fourcc the payload range of its FIRST occurrence; (open_extended_still) WebPDecoder::new on RIFF header + VP8X (any flags byte without the animation bit, any reserved bytes, any canvas up to 2^24 per side with fewer than 2^32 pixels) + any such chunk sequence that contains what the flags promise and exactly one kind of image chunk succeeds and reports canvas width/height, alpha flag, lossy-ness, not animated, loop count 1 and those ranges; (metadata_exact) icc/exif/xmp accessors then return exactly the payload bytes of the first chunk of that name, MemoryLimitExceeded iff it exceeds the limit (before any read), None iff absent. For EVERY field value: VP8L 14-bit sizes 1..16384 (maximum included), alpha bit, version; VP8 14-bit sizes under any scale bits; 24-bit canvas sizes; all 256 VP8X flag bytes; 24-bit durations under any flags byte; even rounding; first-binding rule; output_buffer_size formula. Animated files (ANMF accounting, ANIM fields, first-frame sub-chunks) and the simple-file headers are modelled and covered by execution: thousands of generated layouts per run (all four container kinds, all flag combinations, extreme sizes, unknown chunks anywhere, odd padding, metadata at any position, limits around the chunk sizes) opened with the real decoder and every accessor compared with the layout-defined value, with Container.openFile and with libwebp's WebPDemux.",
+        "level_note": "Trusted: Lean kernel + standard axioms; Cursor/BufRead/Seek contracts as modelled (read_exact succeeds iff enough bytes; negative relative seek is an error); HashMap as first-binding association list.",
+        "design_ref": "DESIGN.md section 4, C08 and section 8.2",
         "trusted_base": COMMON_TB + [
             "modelled, not verified: decoder.rs read_chunk_header, read_data (three first-chunk kinds, VP8X scan loop incl. ANMF accounting, missing-chunk predicate, ANIM parse, first-frame sub-chunk registration), read_chunk, accessors, output_buffer_size; extended.rs read_extended_header, read_3_bytes; HashMap as first-binding association list",
-            "specification: the container layout by construction (the harness's assembler writes the fields whose values the accessors must return); libwebp WebPDemux on the files it accepts",
+            "specification: the container layout by construction (ScanProof.extendedFile / layout / firstRange: the bytes a file with those chunks consists of, and where each payload lies); libwebp WebPDemux on the files it accepts",
         ],
-        "assumptions": ["well-formed files as the assembler builds them (RIFF size = length - 8, chunks inside the file)"],
-        "partial": ["C08.scan_full (first occurrence of every known chunk is registered with its exact payload range, for every chunk order / unknown chunks / padding) is stated, not yet proved; validated by the generated-layout correspondence"],
+        "assumptions": ["well-formed files: RIFF size = length - 8 < 2^32, 4-byte chunk names, chunks inside the file (malformed files are C03's subject)", "the whole-file theorem covers extended stills; animated files and the two simple layouts are covered by the field theorems plus the correspondence run"],
+        "partial": ["no whole-file theorem yet for animated files (ANMF frame accounting, loop duration sum, first-frame sub-chunks): modelled and compared by execution"],
     },
     "C14": {
         "technique": "Lean 4 structural proofs (Kraft equality of any binary tree, limiting-loop step) + exhaustive small alphabets and adversarial families against a model that reproduces std's heap tie-breaking",
